@@ -95,8 +95,8 @@ def check(run):
         ("Labels_mc_pattern.cfg", {"MatchedOnly": "TRUE", "RefPfs": "{12, 23}" if thorough else "{12}",
                                    "Readers": ALLRD if thorough else '{"chain"}'}, "pattern4"),
         ("Labels_mc_long.cfg", {"MatchedOnly": "TRUE", "RefPfs": "{12}",
-                                "LongNs": "{55, 56, 57, 58, 59, 60}" if thorough else "{56, 57, 60}"}, "long"),
-        ("Labels_mc_tamper.cfg", {"MatchedOnly": "TRUE", "MaxTamper": "1", "NVariants": "4", "RefPfs": "{12, 23}"}, "tamper1x4"),
+                                "LongNs": "{55, 56, 57, 58, 59, 60}" if thorough else "{57, 60}"}, "long"),
+        ("Labels_mc_tamper.cfg", {"MatchedOnly": "TRUE", "MaxTamper": "1", "NVariants": "4", "RefPfs": "{12, 23}" if thorough else "{12}"}, "tamper1x4"),
         ("Labels_mc_edge.cfg", {"MatchedOnly": "TRUE", "Readers": ALLRD if thorough else '{"default", "cri"}'}, "edge"),
     ]
     if thorough:
